@@ -113,7 +113,7 @@ func runScal(t *Toks) string {
 
 // ---------- generator ----------
 
-func be32(v *big.Int) []byte {
+func scalBe32(v *big.Int) []byte {
 	b := v.Bytes()
 	if len(b) > 32 {
 		b = b[len(b)-32:]
@@ -156,9 +156,9 @@ func genScalTok(r *Rng, wild bool) (string, *big.Int) {
 	if wild && k < 24 {
 		switch r.Intn(6) {
 		case 0:
-			return hex.EncodeToString(be32(secpN)), nil
+			return hex.EncodeToString(scalBe32(secpN)), nil
 		case 1:
-			return hex.EncodeToString(be32(new(big.Int).Add(secpN, big.NewInt(int64(1+r.Intn(3)))))), nil
+			return hex.EncodeToString(scalBe32(new(big.Int).Add(secpN, big.NewInt(int64(1+r.Intn(3)))))), nil
 		case 2:
 			return hex.EncodeToString(bytes.Repeat([]byte{0xff}, 32)), nil
 		case 3:
@@ -170,7 +170,7 @@ func genScalTok(r *Rng, wild bool) (string, *big.Int) {
 		}
 	}
 	v := genScalarInt(r)
-	return hex.EncodeToString(be32(v)), v
+	return hex.EncodeToString(scalBe32(v)), v
 }
 
 func genValue64(r *Rng) uint64 {
@@ -192,8 +192,8 @@ func genValue64(r *Rng) uint64 {
 	}
 }
 
-func modN(v *big.Int) *big.Int { return new(big.Int).Mod(v, secpN) }
-func tok32(v *big.Int) string  { return hex.EncodeToString(be32(modN(v))) }
+func scalModN(v *big.Int) *big.Int { return new(big.Int).Mod(v, secpN) }
+func scalTok32(v *big.Int) string  { return hex.EncodeToString(scalBe32(scalModN(v))) }
 
 func genScalCases(r *Rng, n int, w *bufio.Writer) {
 	ops := []string{"calc", "sub", "add"}
@@ -216,15 +216,15 @@ func genScalCases(r *Rng, n int, w *bufio.Writer) {
 					case 0: // a == b
 						tk[2] = tk[1]
 					case 1: // b = -a
-						tk[2] = tok32(new(big.Int).Neg(iv[1]))
+						tk[2] = scalTok32(new(big.Int).Neg(iv[1]))
 					default: // b = a + 1, a - 1
-						tk[2] = tok32(new(big.Int).Add(iv[1], big.NewInt(int64(r.Pick(1, -1)))))
+						tk[2] = scalTok32(new(big.Int).Add(iv[1], big.NewInt(int64(r.Pick(1, -1)))))
 					}
 				}
 			case "calc":
 				if iv[1] != nil { // vb = -(v*ab) [+ 0|1]
 					p := new(big.Int).Mul(bv, iv[1])
-					tk[2] = tok32(new(big.Int).Add(new(big.Int).Neg(p), big.NewInt(int64(r.Pick(0, 0, 1, -1)))))
+					tk[2] = scalTok32(new(big.Int).Add(new(big.Int).Neg(p), big.NewInt(int64(r.Pick(0, 0, 1, -1)))))
 				}
 			case "add":
 				p := big.NewInt(0)
@@ -235,11 +235,11 @@ func genScalCases(r *Rng, n int, w *bufio.Writer) {
 					p.Add(p, iv[2])
 				}
 				if r.Bool() { // scalar = -(offset) [+ 0|1]
-					tk[0] = tok32(new(big.Int).Add(new(big.Int).Neg(p), big.NewInt(int64(r.Pick(0, 0, 1, -1)))))
+					tk[0] = scalTok32(new(big.Int).Add(new(big.Int).Neg(p), big.NewInt(int64(r.Pick(0, 0, 1, -1)))))
 				} else if iv[1] != nil && iv[0] != nil { // vb = -(scalar + v*ab)
 					q := new(big.Int).Mul(bv, iv[1])
 					q.Add(q, iv[0])
-					tk[2] = tok32(q.Neg(q))
+					tk[2] = scalTok32(q.Neg(q))
 				}
 			}
 		}
